@@ -427,9 +427,17 @@ class Values:
                 pass  # an empty container contributes no elements
             elif k == "const":
                 out.add(("const", "element"))
+            elif k == "libinst" and self._lib_anext(a[1]) is not None:
+                # a class-based iterator of the library: what its __anext__ returns
+                out |= self.returns(self._lib_anext(a[1]))
             else:
                 out.add(("unknown", f"element of {a}"))
         return frozenset(out)
+
+    def _lib_anext(self, classqual: str) -> Optional[Unit]:
+        info = self.pkg.lib_class(classqual)
+        meth = info.methods.get("__anext__") if info is not None else None
+        return meth if meth is not None and meth.kind == "coroutine" else None
 
     def entered(self, cmv: Val) -> Val:
         """Value bound by ``async with cm as x``."""
@@ -1145,6 +1153,8 @@ class Values:
             return self._arg(unit, e, at, 1)
         if qual == "builtins.filter" and len(e.args) == 2:
             return self._arg(unit, e, at, 1)  # (a selection of the elements of its second argument)
+        if qual in ("itertools.cycle", "itertools.islice", "builtins.reversed", "builtins.iter") and e.args:
+            return self._arg(unit, e, at, 0)  # (an iterator over elements of its first argument, the very objects)
         if qual == "functools.update_wrapper":
             return self._arg(unit, e, at, 0)  # (hands its first argument back)
         if qual.endswith("iscoroutinefunction"):
